@@ -269,6 +269,141 @@ fn verif_native_c15_ntv2_generated() {
     assert!(fails.is_empty(), "C15.N.ntv2.generated: {} failures in {} queries, first: {:?}", fails.len(), n, &fails[..fails.len().min(4)]);
 }
 
+// a whole family of sub grids in one file, records in the given order; every node of a sub grid carries the same
+// shift: (lat, lon west-positive) = (value, -value) seconds of arc
+struct Sub {
+    name: &'static str,
+    parent: &'static str,
+    lat: (f64, f64), // degrees south..north
+    lon: (f64, f64), // degrees east longitude west..east
+    step: f64,       // degrees
+    value: f32,
+}
+fn ntv2_family(big: bool, subs: &[&Sub]) -> Vec<u8> {
+    let mut b = Vec::new();
+    let name8 = |n: &str| {
+        let mut v = n.as_bytes().to_vec();
+        v.resize(8, b' ');
+        v
+    };
+    put(&mut b, big, "NUM_OREC", &u32b(11, big));
+    put(&mut b, big, "NUM_SREC", &u32b(11, big));
+    put(&mut b, big, "NUM_FILE", &u32b(subs.len() as u32, big));
+    put(&mut b, big, "GS_TYPE", b"SECONDS ");
+    put(&mut b, big, "VERSION", b"VERIF   ");
+    put(&mut b, big, "SYSTEM_F", b"A       ");
+    put(&mut b, big, "SYSTEM_T", b"B       ");
+    put(&mut b, big, "MAJOR_F", &f64b(6378137.0, big));
+    put(&mut b, big, "MINOR_F", &f64b(6356752.0, big));
+    put(&mut b, big, "MAJOR_T", &f64b(6378137.0, big));
+    put(&mut b, big, "MINOR_T", &f64b(6356752.0, big));
+    for sg in subs {
+        let (s, n) = (sg.lat.0 * 3600.0, sg.lat.1 * 3600.0);
+        let (e, w) = (-sg.lon.1 * 3600.0, -sg.lon.0 * 3600.0); // west-positive
+        let d = sg.step * 3600.0;
+        let rows = ((n - s) / d).round() as usize + 1;
+        let cols = ((w - e) / d).round() as usize + 1;
+        put(&mut b, big, "SUB_NAME", &name8(sg.name));
+        put(&mut b, big, "PARENT", &name8(sg.parent));
+        put(&mut b, big, "CREATED", b"        ");
+        put(&mut b, big, "UPDATED", b"        ");
+        put(&mut b, big, "S_LAT", &f64b(s, big));
+        put(&mut b, big, "N_LAT", &f64b(n, big));
+        put(&mut b, big, "E_LONG", &f64b(e, big));
+        put(&mut b, big, "W_LONG", &f64b(w, big));
+        put(&mut b, big, "LAT_INC", &f64b(d, big));
+        put(&mut b, big, "LONG_INC", &f64b(d, big));
+        put(&mut b, big, "GS_COUNT", &u32b((rows * cols) as u32, big));
+        for _ in 0..rows * cols {
+            for v in [sg.value, -sg.value, 0.0f32, 0.0f32] {
+                b.extend_from_slice(&if big { v.to_be_bytes() } else { v.to_le_bytes() });
+            }
+        }
+    }
+    put(&mut b, big, "END", &[0u8; 8]);
+    b
+}
+
+//@n {"id":"C08.N.ntv2.family","props":["C08","C15"],"tier":"quick","bound":"a generated NTv2 file with two root grids, two sibling children under the first root and a grandchild under the second child (5 sub grids, constant shift = the sub grid's number), written in all 120 record orders (little-endian) and 24 of them big-endian; a 77x77 lattice of positions over and around the roots (positions closer than 0.001 degree to a border skipped), margin 0","text":"within an NTv2 file the deepest sub-grid containing the point is used, whatever the order of the sub grid records and however many children a parent has: inside the grandchild its value, else inside a child that child's, else inside a root that root's, else no value; every sub grid of the file is reachable"}
+#[test]
+fn verif_native_c08_ntv2_family() {
+    let subs = [
+        Sub { name: "ROOTA", parent: "NONE", lat: (50.0, 58.0), lon: (8.0, 16.0), step: 1.0, value: 1.0 },
+        Sub { name: "KIDB", parent: "ROOTA", lat: (52.0, 54.0), lon: (9.0, 11.0), step: 0.5, value: 2.0 },
+        Sub { name: "KIDC", parent: "ROOTA", lat: (55.0, 57.0), lon: (12.0, 14.0), step: 0.5, value: 3.0 },
+        Sub { name: "GRANDD", parent: "KIDC", lat: (55.5, 56.5), lon: (12.5, 13.5), step: 0.25, value: 4.0 },
+        Sub { name: "ROOTE", parent: "NONE", lat: (40.0, 44.0), lon: (0.0, 4.0), step: 1.0, value: 5.0 },
+    ];
+    // all permutations of 0..5
+    let mut perms: Vec<Vec<usize>> = vec![vec![]];
+    for _ in 0..5 {
+        let mut next = Vec::new();
+        for p in &perms {
+            for k in 0..5 {
+                if !p.contains(&k) {
+                    let mut q = p.clone();
+                    q.push(k);
+                    next.push(q);
+                }
+            }
+        }
+        perms = next;
+    }
+    let inside = |sg: &Sub, lat: f64, lon: f64| lat > sg.lat.0 && lat < sg.lat.1 && lon > sg.lon.0 && lon < sg.lon.1;
+    let near = |sg: &Sub, lat: f64, lon: f64| [(lat - sg.lat.0).abs(), (lat - sg.lat.1).abs(), (lon - sg.lon.0).abs(), (lon - sg.lon.1).abs()].iter().any(|d| *d < 1e-3);
+    let mut fails: Vec<String> = Vec::new();
+    let mut ids: Vec<String> = Vec::new();
+    let mut n = 0usize;
+    for (pi, perm) in perms.iter().enumerate() {
+        for big in [false, true] {
+            if big && pi % 5 != 0 {
+                continue;
+            }
+            let order: Vec<&Sub> = perm.iter().map(|k| &subs[*k]).collect();
+            let tag = format!("{}{}", perm.iter().map(|k| k.to_string()).collect::<String>(), if big { "B" } else { "L" });
+            let file = ntv2_family(big, &order);
+            let g = match Ntv2Grid::new(&file) {
+                Ok(g) => g,
+                Err(e) => {
+                    ids.push(tag.clone());
+                    fails.push(format!("record order {tag}: does not decode: {e:?}"));
+                    continue;
+                }
+            };
+            let mut bad: Option<String> = None;
+            for i in 0..77 {
+                for j in 0..77 {
+                    let lat = 39.53 + 0.25 * i as f64;
+                    let lon = -0.47 + 0.22 * j as f64;
+                    if subs.iter().any(|sg| near(sg, lat, lon)) {
+                        continue;
+                    }
+                    n += 1;
+                    // deepest first: grandchild, children, roots
+                    let want = [3usize, 1, 2, 0, 4].iter().map(|k| &subs[*k]).find(|sg| inside(sg, lat, lon)).map(|sg| sg.value as f64);
+                    let got = g.at(&Coor4D::geo(lat, lon, 0.0, 0.0), 0.0);
+                    let ok = match (want, got) {
+                        (None, None) => true,
+                        (Some(w), Some(v)) => {
+                            let e = (w / 3600.0).to_radians();
+                            (v[1] - e).abs() <= 1e-6 * e && (v[0] - e).abs() <= 1e-6 * e
+                        }
+                        _ => false,
+                    };
+                    if !ok && bad.is_none() {
+                        bad = Some(format!("record order {tag} at ({lat:.3}, {lon:.3}): got {:?} arcsec, expected {:?}", got.map(|v| (v[1].to_degrees() * 3600.0, v[0].to_degrees() * 3600.0)), want));
+                    }
+                }
+            }
+            if let Some(b) = bad {
+                ids.push(tag);
+                fails.push(b);
+            }
+        }
+    }
+    assert!(fails.is_empty(), "C08.N.ntv2.family: FAILSET{{{}}} {} of {} files wrong ({} queries), first: {:?}", ids.join(","), fails.len(), 144, n, &fails[..fails.len().min(4)]);
+}
+
 // ---------------------------------------------------------------------------------------------
 // BaseGrid interpolation: convexity and continuity (nonlinear float reasoning is beyond CBMC: the Kani convexity
 // harness did not finish in 1800 s)
